@@ -32,6 +32,11 @@ theorem Ascii_cons {b : Nat} {l : Bytes} (hb : b < 128) (hl : Ascii l) : Ascii (
 theorem Ascii_drop {l : Bytes} (n : Nat) (h : Ascii l) : Ascii (l.drop n) := fun c hc => h c (List.mem_of_mem_drop hc)
 theorem Ascii_take {l : Bytes} (n : Nat) (h : Ascii l) : Ascii (l.take n) := fun c hc => h c (List.mem_of_mem_take hc)
 
+theorem isSourceChar_iff (b : Nat) : isSourceChar b = true ↔ (b = 9 ∨ b = 10 ∨ b = 13 ∨ 32 ≤ b) := by
+  simp [isSourceChar, or_assoc]
+theorem isLineTerminatorStart_iff (b : Nat) : isLineTerminatorStart b = true ↔ (b = 10 ∨ b = 13) := by
+  simp [isLineTerminatorStart]
+
 theorem spanP_append (p : Cp → Bool) (l : List Cp) : l = (spanP p l).1 ++ (spanP p l).2 := by
   fun_induction spanP p l with
   | case1 => rfl
